@@ -39,7 +39,7 @@ ObsProj(e) ==
     rt_active |-> Range(e.proj.rt_active), rt_inactive |-> Range(e.proj.rt_inactive), pkce |-> Range(e.proj.pkce),
     oidc |-> Range(e.proj.oidc), dev |-> Range(e.proj.dev), par |-> Range(e.proj.par),
     n_at |-> e.proj.n_at, n_rt |-> e.proj.n_rt, n_code |-> e.proj.n_code, n_pkce |-> e.proj.n_pkce,
-    n_oidc |-> e.proj.n_oidc, n_par |-> e.proj.n_par ]
+    n_oidc |-> e.proj.n_oidc, n_par |-> e.proj.n_par, n_jti |-> e.proj.n_jti ]
 ModelProj(s) == LET p == Projection(s) IN [p EXCEPT !.oidc = @ \cup {}]
 
 Ids(S) == {r.id : r \in S}
